@@ -70,6 +70,19 @@ def run(ctx):
     ]
 
 
+def selftest(ctx):
+    build_harness()
+    tr = ctx.work / "st-runs.ndjson"
+    vh(["c09-traces", "seed=5", "n=30", f"out={tr}"], stdout_path="/dev/null")
+    selftest_traces(ctx, "return-dropped", "Trace_VmProtocol", "Trace_VmProtocol.cfg", tr,
+                    lambda e: {"ev": "panic", "site": "x", "msg": "y"} if e.get("ev") == "return" else None, take=40, tail=True)
+    selftest_traces(ctx, "unlocated-error", "Trace_VmProtocol", "Trace_VmProtocol.cfg", tr,
+                    lambda e: dict(e, located=False) if e.get("ev") == "return" and e.get("kind") == "err" else None, take=40, tail=True)
+    selftest_traces(ctx, "errorstop-continues", "Trace_VmProtocol", "Trace_VmProtocol.cfg", tr,
+                    lambda e: dict(e, cont=not e["cont"]) if e.get("ev") == "rec" else None, take=40, tail=True)
+    ctx.cov["rule"] = "selftest: corrupted recordings must be rejected, originals accepted"
+
+
 def replay(path):
     r = json.load(open(path))
     build_harness()
